@@ -269,6 +269,20 @@ func pinnedCases() []pinned {
 		out = append(out, pinned{File: "C18/default_paths_collapse_into_one_operation.json", Doc: &c18Case{Property: "C18", Schema: s}})
 	}
 	{
+		// Order.Item and Shipment.Item: one component schema "Item" for two different messages
+		s, _, resp, _, _ := baseSchema("p0046")
+		order := &schema.Message{Name: "Order", Fields: []*schema.Field{fld("id", 1, schema.KString, schema.Singular)},
+			Nested: []*schema.Message{{Name: "Item", Fields: []*schema.Field{fld("sku", 1, schema.KString, schema.Singular)}}}}
+		ship := &schema.Message{Name: "Shipment", Fields: []*schema.Field{fld("id", 1, schema.KString, schema.Singular)},
+			Nested: []*schema.Message{{Name: "Item", Fields: []*schema.Field{fld("weight", 1, schema.KInt32, schema.Singular)}}}}
+		order.Fields = append(order.Fields, &schema.Field{Name: "item", Number: 2, Kind: schema.KMessage, TypeRef: s.Pkg + ".Order.Item", Card: schema.Singular})
+		ship.Fields = append(ship.Fields, &schema.Field{Name: "item", Number: 2, Kind: schema.KMessage, TypeRef: s.Pkg + ".Shipment.Item", Card: schema.Singular})
+		s.Files[0].Messages = append(s.Files[0].Messages, order, ship)
+		resp.Fields = append(resp.Fields, &schema.Field{Name: "order", Number: 2, Kind: schema.KMessage, TypeRef: s.Pkg + ".Order", Card: schema.Singular},
+			&schema.Field{Name: "shipment", Number: 3, Kind: schema.KMessage, TypeRef: s.Pkg + ".Shipment", Card: schema.Singular})
+		out = append(out, pinned{File: "C18/nested_messages_share_component_schema_name.json", Doc: &c18Case{Property: "C18", Schema: s, Strict: true}})
+	}
+	{
 		s, _, resp, _, _ := baseSchema("p0060")
 		resp.Oneofs = []*schema.Oneof{{Name: "content", Discriminator: "kind"}}
 		resp.Fields = append(resp.Fields, &schema.Field{Name: "text", Number: 2, Kind: schema.KString, Card: schema.Singular, Oneof: "content"},
